@@ -30,11 +30,23 @@ def fl(fr, dtype):
         return dtype(v)
 
 
+def sf(x):
+    try:
+        return float(x)
+    except OverflowError:
+        return math.inf if x > 0 else -math.inf
+
+
 def ulp(x, dtype):
-    x = abs(float(x))
+    try:
+        x = abs(float(x))
+    except OverflowError:
+        x = math.inf
+    x = min(x, float(np.finfo(dtype).max))
     if x == 0 or not math.isfinite(x):
         return float(np.finfo(dtype).tiny)
-    return float(np.spacing(dtype(x)))
+    xv = dtype(x)
+    return float(xv) - float(np.nextafter(xv, dtype(0)))   # distance towards zero (finite even at the largest float)
 
 
 # ---------------------------------------------------------------------------------------------
@@ -318,6 +330,13 @@ def near(a, b, dtype, scale, ulps):
     """|a-b| <= ulps * ulp(scale) in dtype (exact rationals)"""
     if a is None or b is None:
         return a is None and b is None
+    if isinstance(a, float) or isinstance(b, float):   # non-finite in the implementation's dtype
+        return a == b
+    if a == b:
+        return True
+    u = ulp(max(abs(sf(scale)), abs(sf(a)), abs(sf(b))), dtype)
+    if not math.isfinite(u):
+        return False
     return abs(a - b) <= Fraction(ulps * ulp(max(abs(float(scale)), abs(float(a)), abs(float(b))), dtype))
 
 
@@ -416,6 +435,18 @@ def shrink_ops(ops, fails, max_rounds=200):
 
 # ---------------------------------------------------------------------------------------------
 # generators
+def moderate_float(rng, dtype):
+    """finite floats whose sums/products stay far from overflow (CMA-MAE arithmetic)"""
+    r = rng.random()
+    if r < 0.5:
+        v = rng.uniform(-10, 10)
+    elif r < 0.7:
+        v = rng.choice([-1, 1]) * 10 ** rng.uniform(-12, 12 if dtype is np.float64 else 6)
+    else:
+        v = rng.randrange(-64, 65) / 8.0
+    return float(dtype(v))
+
+
 def wild_float(rng, dtype):
     r = rng.random()
     fi = np.finfo(dtype)
@@ -540,3 +571,147 @@ def run_cases(rep, prop, cases, compare, oracle, nontrivial, what, broken, theor
                        "disagreement": d2, "oracle": orc2, "theorems_at_stake": theorems}, orc2 is not None, tags)
         if len(rep.violations) >= max_viol:
             break
+
+
+# ---------------------------------------------------------------------------------------------
+# step-wise simulation (mode B): the model takes each step from the implementation's observed pre-state
+EMPTY_OBS = {"rows": [], "stats": {"num": 0, "cov": Fraction(0), "qd": Fraction(0), "norm": Fraction(0), "max": None, "mean": None},
+             "best": None, "len": 0, "empty": True}
+
+
+def load_op(spec, pre):
+    n = len(pre["rows"])
+    if isinstance(pre["stats"]["qd"], float):   # overflowed in the implementation's dtype
+        sm = Fraction(0)
+    else:
+        sm = pre["stats"]["qd"] + n * F(DT[spec["dtype"]](spec["offset"])) if n else Fraction(0)
+    rows = [[r[0], r[2], r[3], r[1]] for r in pre["rows"]]
+    best = [] if pre["best"] is None else [[pre["best"][0], pre["best"][2], pre["best"][3], pre["best"][1]]]
+    mx = [] if pre["stats"]["max"] is None else [pre["stats"]["max"]]
+    return [7, rows, sm, mx, best]
+
+
+def compare_stepwise(driver, spec, ops, ulps=None, check_stats=True, stats_scale=None):
+    """Every op is checked against the model started from the implementation's own pre-state.
+    Decisions (status), values, objectives, ids, obj_max and untouched thresholds must match exactly; newly computed
+    thresholds and the floating-point statistics within `ulps` units in the last place of the op's magnitude."""
+    dtype = DT[spec["dtype"]]
+    if ulps is None:
+        ulps = 32 if spec["dtype"] == "f" else 16
+    trace, mops_all, archive, table = run_impl(spec, ops)
+    pre = EMPTY_OBS
+    k = 0
+    for step, (op, ent) in enumerate(zip(ops, trace)):
+        mop = mops_all[k:k + ent["n_mops"]]
+        k += ent["n_mops"] + 2
+        for r in pre["rows"]:
+            if isinstance(r[1], tuple):
+                return {"step": step, "what": "torn elite", "impl": str(r)}
+        mout = driver.call("ARCH", [model_cfg(spec), [load_op(spec, pre)] + mop + [[4], [5]]])
+        rets = mout[1:1 + len(mop)]
+        o = ent["obs"]
+        if op[0] in ("add", "add_single"):
+            if "error" in ent["ret"]:
+                return {"step": step, "what": "valid call raised", "impl": ent["ret"]}
+            if op[0] == "add" and spec["kind"] != "sliding":
+                mst, mval = rets[0][0], [uq(v) for v in rets[0][1]]
+            else:
+                mst, mval = [r[0] for r in rets], [uq(r[1]) for r in rets]
+            if mst != ent["ret"]["status"]:
+                return {"step": step, "what": "status", "model": mst, "impl": ent["ret"]["status"]}
+            vdt = np.dtype(ent["ret"]["value_dtype"]).type
+            if len(mval) != len(ent["ret"]["value"]):
+                return {"step": step, "what": "feedback length", "model": len(mval), "impl": len(ent["ret"]["value"])}
+            for j, (mv, iv) in enumerate(zip(mval, ent["ret"]["value"])):
+                if F(fl(mv, vdt)) != iv:
+                    return {"step": step, "what": "value[%d]" % j, "model_exact": str(mv), "impl": float(iv)}
+        mrows = {r[0]: r for r in decode_model_rows(mout[-2])}
+        mstats, mbest, msum, mlen = decode_model_stats(mout[-1])
+        irows = {r[0]: r for r in o["rows"]}
+        if {c: r[1] for c, r in mrows.items()} != {c: r[1] for c, r in irows.items()}:
+            return {"step": step, "what": "contents (cell -> id)", "model": {c: r[1] for c, r in mrows.items()}, "impl": {c: r[1] for c, r in irows.items()}}
+        cands = op[1] if op[0] == "add" else [op[1]] if op[0] == "add_single" else []
+        scale = max([abs(float(c[1])) for c in cands] + [abs(float(r[3])) for r in pre["rows"]] + [abs(spec.get("tmin") or 0.0), 1e-300])
+        touched = set(ent.get("cells", []))
+        prer = {r[0]: r for r in pre["rows"]}
+        for c, mr in mrows.items():
+            ir = irows[c]
+            if mr[2] != ir[2]:
+                return {"step": step, "what": "stored objective", "cell": c, "model": float(mr[2]), "impl": float(ir[2])}
+            if c in prer and prer[c][1] == ir[1] and c not in touched:
+                if ir[3] != prer[c][3]:
+                    return {"step": step, "what": "threshold of an untouched cell changed", "cell": c, "before": float(prer[c][3]), "impl": float(ir[3])}
+            elif not near(mr[3], ir[3], dtype, scale, ulps):
+                return {"step": step, "what": "stored threshold", "cell": c, "model": float(mr[3]), "impl": float(ir[3]), "ulps_allowed": ulps}
+        if o["len"] != mlen:
+            return {"step": step, "what": "len", "model": mlen, "impl": o["len"]}
+        if o["stats"]["num"] != mstats["num"]:
+            return {"step": step, "what": "num_elites", "model": mstats["num"], "impl": o["stats"]["num"]}
+        sscale = sum(abs(r[2]) for r in o["rows"]) + sum(abs(r[2]) for r in pre["rows"]) + abs(F(spec["offset"])) * max(1, len(o["rows"]))
+        if stats_scale is not None:
+            sscale = max(sscale, stats_scale)
+        for key in (("cov", "qd", "norm", "max", "mean") if check_stats and not isinstance(pre["stats"]["qd"], float) else ("max",)):
+            mv, iv = mstats[key], o["stats"][key]
+            if isinstance(iv, float) or isinstance(mv, float):
+                continue  # overflowed to inf in the implementation's dtype: not comparable
+            if key == "max":
+                ok = mv == iv
+            else:
+                ok = near(mv, iv, dtype, sscale if key in ("qd", "mean", "norm") else 1, 4 * ulps)
+            if not ok:
+                return {"step": step, "what": "stats." + key, "model": None if mv is None else float(mv), "impl": None if iv is None else float(iv)}
+        ib = o["best"]
+        if (mbest is None) != (ib is None) or (mbest is not None and (mbest[:3] != ib[:3] or not near(mbest[3], ib[3], dtype, scale, ulps))):
+            return {"step": step, "what": "best_elite", "model": str(mbest), "impl": str(ib)}
+        pre = o
+    return None
+
+
+def nextafter(x, up, dtype):
+    v = float(np.nextafter(dtype(x), dtype(np.inf if up else -np.inf)))
+    return v if math.isfinite(v) else float(dtype(x))
+
+
+def gen_history_live(rng, spec, nops, max_batch, obj_gen, tie_rate=0.3, clear_rate=0.06, single_rate=0.25):
+    """like gen_history, but generated against a live archive so that objectives can be placed exactly at, one ulp above
+    and one ulp below the CURRENT threshold of the targeted cell"""
+    dtype = DT[spec["dtype"]]
+    archive = make_archive(spec)
+    ops, pool = [], []
+    nid = [1]
+    stats = {"at_thr": 0, "above": 0, "below": 0}
+
+    def cand():
+        i = nid[0]
+        nid[0] += 1
+        m = gen_measures(rng, spec, pool)
+        o = obj_gen(rng)
+        if rng.random() < tie_rate:
+            occ, d = archive.retrieve_single(np.array(m, dtype=dtype))
+            t = float(d["threshold"]) if occ else (spec.get("tmin") if spec.get("tmin") is not None else None)
+            if t is not None and math.isfinite(t):
+                r = rng.random()
+                if r < 0.5:
+                    o = float(dtype(t))
+                    stats["at_thr"] += 1
+                elif r < 0.75:
+                    o = nextafter(t, True, dtype)
+                    stats["above"] += 1
+                else:
+                    o = nextafter(t, False, dtype)
+                    stats["below"] += 1
+        return [i, o, m]
+    for _ in range(nops):
+        r = rng.random()
+        if r < clear_rate:
+            op = ["clear"]
+            archive.clear()
+        elif r < clear_rate + single_rate:
+            op = ["add_single", cand(), "nd"]
+            archive.add_single(**single_args(spec, op[1]))
+        else:
+            n = rng.choice([0, 1, 2, 3, 5, 8, max_batch])
+            op = ["add", [cand() for _ in range(n)], "nd"]
+            archive.add(**batch_arrays(spec, op[1]))
+        ops.append(op)
+    return ops, stats
